@@ -492,15 +492,35 @@ class Prov:
             g = self.facts.fn(cl[1]) if cl[0] == "closure" else None
             if g is not None:
                 return multi([args[1], self.ret(g)])
+        if c["key"] in ("std::option::Option::and_then", "std::result::Result::and_then") and len(args) == 2:
+            # `x.and_then(f)` is `match x { Ok(v) => f(v), Err(e) => Err(e) }`
+            cl = peel(args[1])
+            g = self.facts.fn(cl[1]) if cl[0] == "closure" else None
+            is_opt = c["key"].startswith("std::option")
+            r = None
+            if g is not None:
+                r = self.ret(g)
+            elif cl[0] == "fn":
+                r = ("call", cl[1], (payload(args[0], "some" if is_opt else "ok"),), None, (fn.key, bid))
+            if r is not None:
+                if is_opt:
+                    return multi([r, ("agg", "std::option::Option::None", ())])
+                return multi([r, ("call", FROM_RESIDUAL, (payload(args[0], "err"),), "<std::result::Result as std::ops::FromResidual>::from_residual", (fn.key, "agg"))])
         if c["key"] in ("std::option::Option::map", "std::result::Result::map") and len(args) == 2:
             # `x.map(|v| e)` is `match x { Some(v) => Some(e), None => None }` (resp. Ok / Err)
             cl = peel(args[1])
             g = self.facts.fn(cl[1]) if cl[0] == "closure" else None
+            r = None
             if g is not None:
                 r = self.ret(g)
+            elif cl[0] == "fn":
+                # `x.map(f)` with a function item: f applied to the payload
+                r = ("call", cl[1], (payload(args[0], "some" if c["key"].startswith("std::option") else "ok"),), None, (fn.key, bid))
+            if r is not None:
                 if c["key"].startswith("std::option"):
                     return multi([("agg", "std::option::Option::Some", (("0", r),)), ("agg", "std::option::Option::None", ())])
-                return multi([("agg", "std::result::Result::Ok", (("0", r),)), ("agg", "std::result::Result::Err", (("0", payload(args[0], "err")),))])
+                return multi([("agg", "std::result::Result::Ok", (("0", r),)),
+                              ("call", FROM_RESIDUAL, (payload(args[0], "err"),), "<std::result::Result as std::ops::FromResidual>::from_residual", (fn.key, "agg"))])
         if c["key"] == "<indirect>":
             return ("call", "<indirect>", (self.operand(fn, c["indirect"], site),) + args, None, (fn.key, bid))
         if c.get("local"):
